@@ -119,9 +119,11 @@ class RpcWorld(World):
         faults = []
         for _ in range(nf):
             r = rng.random()
-            if r < 0.15:
+            if r < 0.08:
+                f = {"kind": "ow_rst_after", "at": rng.randint(1, ncalls + 3)}
+            elif r < 0.2:
                 f = {"kind": rng.choice(HS_FAULTS), "at_conn": rng.randint(0, 3)}
-            elif r < 0.3:
+            elif r < 0.33:
                 f = {"kind": rng.choice(REQ_FAULTS), "at": rng.randint(1, ncalls + 3)}
             else:
                 f = {"kind": rng.choice(REP_FAULTS), "at": rng.randint(1, ncalls + 3)}
@@ -184,7 +186,7 @@ class RpcWorld(World):
         uri = srv.register(obj, "tok")
 
         # ---------------- middlebox
-        st = {"inv": 0, "fired": [], "replies": [], "ow_delivered": {}, "rst_conns": set(), "late_pending": 0}
+        st = {"inv": 0, "fired": [], "replies": [], "ow_delivered": {}, "rst_conns": set(), "late_pending": 0, "rst_after_delivery": set()}
         by_at = {}
         faults = [dict(f) for f in plan["faults"]]     # never mutate the plan
         for f in faults:
@@ -229,6 +231,20 @@ class RpcWorld(World):
                 return None
             if oneway:
                 st["ow_delivered"][n] = (pipe.conn, sched.stamp(), info)
+                fa = [f for f in by_at.get(n, []) if f["kind"] == "ow_rst_after" and not f.get("_used")]
+                if fa:
+                    # the one-way request arrives completely, then the connection is reset: the daemon can still read what is
+                    # queued (the peer address is gone: getpeername fails) and has to run the call - the client was told it is on its way
+                    fa[0]["_used"] = True
+                    fire(fa[0], pipe.conn)
+                    pipe.deliver(raw)
+                    c, s = pair(pipe)
+                    for x in (c, s):
+                        x.reset = True
+                        if x.out is not None:
+                            x.out.dead = True
+                    st["rst_after_delivery"].add(pipe.conn)
+                    return None
             else:
                 awaiting.setdefault(pipe.conn, []).append(n)
             return True
